@@ -3,6 +3,7 @@ import Csproto.Bridge.Facts
 import Csproto.Bridge.WireFuncs
 import Csproto.Bridge.WireFuncs2
 import Csproto.Bridge.DecoderFuncs
+import Csproto.Bridge.SkipFuncs
 /- axiom audit for C03 -/
 open Csproto
 #print axioms C03.step_safe
@@ -43,3 +44,10 @@ open Csproto
 #print axioms Csproto.Bridge.DecoderFuncs.DecodeFixed64_refines
 #print axioms Csproto.Bridge.DecoderFuncs.Offset_refines
 #print axioms Csproto.Bridge.DecoderFuncs.Reset_refines
+
+-- DecodeBytes and Skip of the current decoder.go refine Dec.step: Bridge/DecoderFuncs.lean, Bridge/SkipFuncs.lean
+#print axioms Csproto.Bridge.DecoderFuncs.DecodeBytes_refines
+#print axioms Csproto.Bridge.SkipFuncs.Skip_refines
+#print axioms Csproto.Bridge.SkipFuncs.prefix_eval
+#print axioms Csproto.Bridge.SkipFuncs.check_eval
+#print axioms Csproto.Bridge.SkipFuncs.len_eval
